@@ -326,7 +326,7 @@ Proof.
   destruct (melt_tokens_spec cfg mem_ks id ins w Hinv) as [w2 [r [Hrun2 [_ Hr]]]].
   rewrite Hrun in Hrun2. inversion Hrun2; subst w2 r. clear Hrun2.
   destruct Hr as [q [Hf [_ Hm]]]. exists q. split; [exact Hf|].
-  destruct (find (fun m => mq_hash m =? lq_hash q) (d_mq (w_db w))).
+  destruct (internal_mq q (w_db w)).
   - left. destruct Hm as [pre [_ [_ [_ Hl]]]]. rewrite Hl. reflexivity.
   - right. destruct Hm as [_ [_ [_ Hc]]]. split; [exact Hc|].
     intros Hmpp. unfold the_pay_call, the_fee_limit. cbn [pc_maxfee]. rewrite Hmpp. reflexivity.
@@ -356,7 +356,7 @@ Proof.
   destruct dc; cbn [negb]; [|cbn [run]; intros H; inversion H].
   destruct (msat =? 0); [cbn [run]; intros H; inversion H|].
   destruct w as [d l m a n]. sx.
-  destruct (find (fun q0 => mq_hash q0 =? h) (d_mq d)) as [mq0|].
+  destruct (same_invoice (ROk (find (fun q0 => mq_hash q0 =? h) (d_mq d))) req) as [mq0|].
   - destruct (c_mpp cfg); sx; intros H; inversion H.
   - destruct (c_mpp cfg); [|sx; intros H; inversion H].
     destruct (msat <=? part); [sx; intros H; inversion H|].
